@@ -10,14 +10,14 @@ DROPS = rw.DROPS
 NOT_DECIDED = [
     'sequences of values: each append/read is one obligation with frame clauses (older bytes unchanged, cursor advanced by the encoded width); the induction over the sequence is the stated argument, not a single query',
     'native-order (put_u16 ...) and reverse-endian (put_u16r ...) one-liners are outside the b-/l-suffixed set the statement names and are not instantiated',
-    'BitWriter::truncate / reset, BlockStringWriter: not under contract',
+    'BitWriter::reset, BlockStringWriter: not under contract',
     'std::string growth is the capacity model of stubs/vstr.h (allocation failure is outside the model except for resize in pput)',
 ]
 CLAIMED = True
 MANIFEST = dict(
     category='proof',
     text=('Every reader accessor (pgetv/getv, get<T>/pget<T>, the 36 typed get_*/pget_* one-liners, the hand-assembled 24/48-bit forms with their '
-          'sign-extending variants, read/readx/pread/preadx in both overloads, get_cstr/pget_cstr/get_line, skip_if) and every writer operation '
+          'sign-extending variants (ext24 / ext48 are discharged here as well), read/readx/pread/preadx in both overloads, get_cstr/pget_cstr/get_line, skip_if) and every writer operation '
           '(StringWriter write/extend/put_*/pput_*, BufferWriter pwrite/write/put_*/pput_*, BitWriter::write/size, BitReader::pread/read) carries a contract whose '
           'C01 clauses say: the value returned/stored is the big-/little-endian numeral of exactly the bytes at the position (floats bit-exact), the cursor '
           'advances by exactly the encoded width, older bytes are unchanged (ghost byte index), positional writes zero-extend. Contracts are enforced with '
